@@ -9,7 +9,7 @@ use vx_replay::{*, mpdfilter::{T, parse_filter}, mpdtok::mpd_tokenize};
 
 struct Rng(u64);
 impl Rng { fn next(&mut self) -> u64 { self.0 ^= self.0 << 13; self.0 ^= self.0 >> 7; self.0 ^= self.0 << 17; self.0 } fn below(&mut self, n: usize) -> usize { (self.next() % n.max(1) as u64) as usize } }
-const VALS: [&str; 16] = ["foo", "", "a b", "Joe's", "x\"y", "a\\b", "\\", "\"", "(a)", "a AND b", " lead", "caf\u{e9}", "a\\\"b", "tab\there", "!", "''"];
+const VALS: [&str; 20] = ["foo", "", "a b", "Joe's", "x\"y", "a\\b", "\\", "\"", "(a)", "a AND b", " lead", "caf\u{e9}", "a\\\"b", "tab\there", "!", "''", "Mot\u{f6}rhead\\Live", "^Beyonc\u{e9}\\.$", "\u{65e5}\u{672c}\\", "\u{fc}\"x"];
 const TAGS: [(&str, fn() -> Tag); 4] = [("Artist", || Tag::Artist), ("Album", || Tag::Album), ("MUSICBRAINZ_TRACKID", || Tag::MusicBrainzRecordingId), ("any", || Tag::any())];
 const OPS: [(&str, Operator); 5] = [("==", Operator::Equal), ("!=", Operator::NotEqual), ("contains", Operator::Contain), ("=~", Operator::Match), ("!~", Operator::NotMatch)];
 /// a random filter together with the tree it means (AND flattened: nesting up to associativity)
